@@ -38,7 +38,7 @@ class OpCtx(object):
 
 
 class Sim(object):
-    def __init__(self, source, import_digest, full_check_every=1):
+    def __init__(self, source, import_digest, import_names=None):
         self.src = source
         self.cfg = source.cfg
         self.pool = Pool()
@@ -56,6 +56,8 @@ class Sim(object):
         self.tracer = self._make_tracer(self.S, None)
         self.sched_keys = set()
         self.point_lines = set()
+        self.module_reported = False
+        self.import_names = import_names or {}
         self.total_steps = 0
         self.t0_clock = None
 
@@ -113,6 +115,7 @@ class Sim(object):
             self.count('probe.fault_inside_rebinding_operator')
         if kind == 'check':
             self.pool_check(ctx.op, 'at-check')
+            self.module_check(ctx.op, 'mid-call')
         elif kind == 'cancel':
             self.pool_check(ctx.op, 'pre-cancel')
             ctx.cancel_kind = pt['exc']
@@ -154,6 +157,7 @@ class Sim(object):
         b = Builder(self.pool, op)
         try:
             recv = b.build(op['recv']) if op.get('recv') else None
+            b.recv_obj = recv
             args = [b.build(x) for x in op['args']]
             kwargs = {k: b.build(v) for k, v in sorted(op['kwargs'].items())}
         except MissingHandle:
@@ -388,11 +392,19 @@ class Sim(object):
                 break
         self.end_of_run()
 
+    def module_check(self, op, when):
+        d = module_digest(ops.MODS)
+        self.count('module_digests')
+        if d != self.import_digest and not self.module_reported:
+            self.module_reported = True
+            now = module_digest(ops.MODS, per_name=True)
+            changed = sorted(k for k in now if now[k] != self.import_names.get(k))
+            self.violate('O1.module', op, {'when': when, 'changed': changed[:10]}, blame='module-state')
+        return d
+
     def end_of_run(self):
         self.pool_check(None, 'run-end')
-        d = module_digest(ops.MODS)
-        if d != self.import_digest:
-            self.violate('O1.module', None, {'digest': d, 'import_digest': self.import_digest}, blame='module-state')
+        d = self.module_check(None, 'run-end')
         self.events.append(('end', d))
 
     # ------------------------------------------------------------ engine T
